@@ -540,21 +540,10 @@ class UnifiedRTFEncoder(EncodingStrategy):
             )
             all_section_content.extend(section_body_content)
 
-        # Handle bottom borders on last section
-        if document.rtf_footnote is not None and doc_border_bottom is not None:
-            document.rtf_footnote.border_bottom = BroadcastValue(
-                value=document.rtf_footnote.border_bottom, dimension=(1, 1)
-            ).update_row(0, [doc_border_bottom[0]])
-        else:
-            # Apply bottom border to last section's last row
-            if isinstance(document.rtf_body, list) and isinstance(document.df, list):
-                last_section_body = document.rtf_body[-1]
-                last_section_dim = document.df[-1].shape
-                if last_section_dim[0] > 0 and doc_border_bottom is not None:
-                    last_section_body.border_bottom = BroadcastValue(
-                        value=last_section_body.border_bottom,
-                        dimension=last_section_dim,
-                    ).update_row(last_section_dim[0] - 1, doc_border_bottom)
+        # The closing border of the last section is applied page by page by the
+        # feature processor (its copy of the page settings keeps border_last), so
+        # nothing is written back into the caller's footnote or body objects here:
+        # doing so changed, or broke, the next encode of the same document.
 
         return "\n".join(
             [
